@@ -64,7 +64,7 @@ def c15_streams(tier, seed, exes):
     for mode in ("M", "S"):
         for bt in _BTS:
             jobs.append(dict(exe=exes["h_convfix_" + bt], args=["resize", mode, bt, "150" if q else "4000"],
-                             label=f"fixpnt size adapter, {mode}, {bt}: 14x14 configurations, every source encoding <= 10 bits"))
+                             label=f"fixpnt size adapter, {mode}, {bt}: 19x17 configurations, every source encoding <= 10 bits"))
     return jobs
 
 
@@ -120,12 +120,12 @@ def convpi_streams(tier, seed, exes):
                                  label=f"convpi posit<{n},{es}> -> integer<{bt}> structured shard {sh}"))
         for ib in CONVPI_I2P_RND:
             if bt == "u64" and ib > 64:
-                continue            # scale(integer) does not terminate for multi-block uint64_t: probed by the `hang` job
+                continue            # multi-block uint64_t (defective carry chain; did not terminate before the scale() call was removed): probed by the `hang` job
             ic = {16: 500, 32: 500, 64: 400, 100: 300, 128: 200}[ib] if quick else {16: 10000, 32: 10000, 64: 6000, 100: 4000, 128: 3000}[ib]
             for sh in range(shards):
                 jobs.append(dict(exe=exe, args=["i2p", str(ib), bt, str(ic // shards)], env={"VERIF_SEED": str(seed * 100 + sh)},
                                  label=f"convpi integer<{ib},{bt}> -> posit structured shard {sh}"))
-    # 4. WholeNumber / NaturalNumber integers (convert_i2p reads their top bit as a sign inside scale()): every pattern of
+    # 4. WholeNumber / NaturalNumber integers (values with the top bit set included): every pattern of
     #    integer<4|8> into the posit matrix, integer<12> into a few configurations, structured samples; p2i on a few configurations
     for ui, (hn, bt) in enumerate((("h_convpi_w_u8", "u8"), ("h_convpi_w_u32", "u32"), ("h_convpi_n_u16", "u16"))):
         exe = exes[hn]
